@@ -294,6 +294,11 @@ class TimeDependentLinearPDE(LinearPDE):
                 self.grid_sol, self.time_steps, solution)(self.grid_obs,
                                                           self._time_obs)
 
+        # With only one time observation, the observed solution is a vector over the observation grid
+        # (also when it was obtained by interpolation, which returns one column per observation time)
+        if len(self._time_obs) == 1 and solution_obs.ndim == 2 and solution_obs.shape[-1] == 1:
+            solution_obs = solution_obs[:, 0]
+
         # Apply observation map
         if self.observation_map is not None:
             solution_obs = self.observation_map(solution_obs)
